@@ -218,6 +218,19 @@ def run_case_files(unit, header, case_terms, check_fn, tag_fn, scratch, shard=30
     return failing, tags, errors
 
 
+def eval_bools(header, fn, terms, scratch, name="exactness"):
+    """map a boolean model function over a few case terms; returns list of bools"""
+    path = os.path.join(scratch, name + ".v")
+    with open(path, "w") as fh:
+        fh.write(header + "\nEval vm_compute in (map (fun c => if %s c then 1%%nat else 0%%nat) [\n%s\n]).\n"
+                 % (fn, ";\n".join(terms)))
+    rc, out = coqc(path)
+    if rc != 0:
+        return None
+    blocks = [b for b in re.split(r"(?m)^\s*= ", out) if b.strip()]
+    return [bool(v) for v in parse_nat_list(blocks[0])]
+
+
 def eval_in_coq(header, term, scratch, name="probe"):
     """Evaluate one term with vm_compute and return Coq's printed answer (for replay files)."""
     path = os.path.join(scratch, name + ".v")
